@@ -339,3 +339,142 @@ Proof.
   clearbody st. induction H as [|w l Hw _ IH]; [reflexivity|].
   cbn [flat_map]. rewrite bytes_ok_app, IH, word_bytes_ok by exact Hw. reflexivity.
 Qed.
+
+(* ================= C12: what the salt depends on ================= *)
+Definition no_byte (b : N) (l : bytes) : bool := forallb (fun c => negb (c =? b)) l.
+
+(* splitting at the first occurrence of a separator byte *)
+Lemma app_sep_inj (sep : N) a1 a2 r1 r2 :
+  no_byte sep a1 = true -> no_byte sep a2 = true ->
+  a1 ++ sep :: r1 = a2 ++ sep :: r2 -> a1 = a2 /\ r1 = r2.
+Proof.
+  revert a2; induction a1 as [|x a1 IH]; intros [|y a2] H1 H2 H; cbn in *.
+  - injection H as ->. auto.
+  - injection H as <- _. rewrite N.eqb_refl in H2. discriminate.
+  - injection H as -> _. rewrite N.eqb_refl in H1. discriminate.
+  - injection H as -> H. apply andb_true_iff in H1 as [_ H1]. apply andb_true_iff in H2 as [_ H2].
+    destruct (IH a2 H1 H2 H) as [-> ->]. auto.
+Qed.
+
+Lemma app_len_inj {A} (a1 a2 r1 r2 : list A) :
+  length a1 = length a2 -> a1 ++ r1 = a2 ++ r2 -> a1 = a2 /\ r1 = r2.
+Proof.
+  revert a2; induction a1 as [|x a1 IH]; intros [|y a2] Hl H; cbn in *; try discriminate; auto.
+  injection H as -> H. injection Hl as Hl. destruct (IH a2 Hl H) as [-> ->]. auto.
+Qed.
+
+(* seeded: the hash input is path ++ "|" ++ seed ++ name; injective in (path, seed, name) for
+   seeds of one length and paths without '|' *)
+Theorem seeded_input_injective p1 p2 s1 s2 n1 n2 :
+  no_byte 124 p1 = true -> no_byte 124 p2 = true -> length s1 = length s2 ->
+  (p1 ++ [124]) ++ s1 ++ n1 = (p2 ++ [124]) ++ s2 ++ n2 -> p1 = p2 /\ s1 = s2 /\ n1 = n2.
+Proof.
+  intros H1 H2 Hl H. rewrite <- !app_assoc in H. cbn [app] in H.
+  destruct (app_sep_inj 124 _ _ _ _ H1 H2 H) as [-> H'].
+  destruct (app_len_inj _ _ _ _ Hl H') as [-> ->]. auto.
+Qed.
+
+(* seeded names depend on nothing but (seed, package path, name) *)
+Theorem seeded_name_depends_only_on c1 c2 path aid1 aid2 name i e :
+  c_seed c1 = c_seed c2 -> seed_present c1 = true ->
+  hash_with_package c1 path aid1 name i e = hash_with_package c2 path aid2 name i e.
+Proof.
+  intros Hs Hp. unfold hash_with_package, pkg_salt.
+  assert (Hp2 : seed_present c2 = true) by (unfold seed_present in *; rewrite <- Hs; exact Hp).
+  rewrite Hp, Hp2, Hs. reflexivity.
+Qed.
+
+Theorem seeded_field_depends_only_on c1 c2 shape f e :
+  c_seed c1 = c_seed c2 -> seed_present c1 = true ->
+  hash_with_struct c1 shape f e = hash_with_struct c2 shape f e.
+Proof.
+  intros Hs Hp. unfold hash_with_struct, struct_salt.
+  assert (Hp2 : seed_present c2 = true) by (unfold seed_present in *; rewrite <- Hs; exact Hp).
+  rewrite Hp, Hp2, Hs. reflexivity.
+Qed.
+
+(* unseeded: the input of the package salt, h ++ binary_id ++ " GOGARBLE=" ++ g ++ flags *)
+Definition seedless (c : gcfg) : Prop := c_seed c = [] /\ c_testobf c = [].
+
+Definition flag_combo (c : gcfg) : bool * bool * bool := (c_literals c, c_tiny c, c_ctrlflow c).
+Definition flags_of_combo (k : bool * bool * bool) : bytes :=
+  let '(l, t, cf) := k in
+  (if l then s_literals else []) ++ (if t then s_tiny else []) ++ [] ++ (if cf then s_ctrlflow else []) ++ [].
+
+Lemma build_flags_seedless c : seedless c -> build_flags c = flags_of_combo (flag_combo c).
+Proof.
+  intros [Hs Ht]. unfold build_flags, flags_of_combo, flag_combo, seed_present. rewrite Hs, Ht. reflexivity.
+Qed.
+
+Definition combos : list (bool * bool * bool) :=
+  [(false,false,false);(false,false,true);(false,true,false);(false,true,true);
+   (true,false,false);(true,false,true);(true,true,false);(true,true,true)].
+
+Lemma combos_all k : In k combos.
+Proof. destruct k as [[[] []] []]; cbn; tauto. Qed.
+
+Definition eqb3 (a b : bool * bool * bool) : bool :=
+  let '(a1, a2, a3) := a in let '(b1, b2, b3) := b in Bool.eqb a1 b1 && Bool.eqb a2 b2 && Bool.eqb a3 b3.
+
+(* the 8 seedless flag strings are pairwise distinct, and each is empty or starts with a space *)
+Definition flags_table_ok : bool :=
+  forallb (fun a => forallb (fun b => implb (beq (flags_of_combo a) (flags_of_combo b)) (eqb3 a b)) combos
+                    && match flags_of_combo a with [] => true | c :: _ => c =? 32 end) combos.
+Lemma flags_table_ok_true : flags_table_ok = true. Proof. vm_compute. reflexivity. Qed.
+
+Lemma eqb3_eq a b : eqb3 a b = true -> a = b.
+Proof. destruct a as [[[] []] []], b as [[[] []] []]; cbn; intros H; try discriminate; reflexivity. Qed.
+
+Lemma flags_of_combo_inj a b : flags_of_combo a = flags_of_combo b -> a = b.
+Proof.
+  intros H. pose proof flags_table_ok_true as T. unfold flags_table_ok in T. rewrite forallb_forall in T.
+  specialize (T a (combos_all a)). apply andb_true_iff in T as [T _]. rewrite forallb_forall in T.
+  specialize (T b (combos_all b)). rewrite H, beq_refl in T. cbn in T. apply eqb3_eq, T.
+Qed.
+
+Lemma flags_head a : match flags_of_combo a with [] => True | c :: _ => c = 32 end.
+Proof.
+  pose proof flags_table_ok_true as T. unfold flags_table_ok in T. rewrite forallb_forall in T.
+  specialize (T a (combos_all a)). apply andb_true_iff in T as [_ T].
+  destruct (flags_of_combo a); [exact I | apply N.eqb_eq, T].
+Qed.
+
+(* g ++ f where g has no space and f is empty or starts with a space: the split is unique *)
+Lemma nospace_split g1 g2 f1 f2 :
+  no_byte 32 g1 = true -> no_byte 32 g2 = true ->
+  match f1 with [] => True | c :: _ => c = 32 end -> match f2 with [] => True | c :: _ => c = 32 end ->
+  g1 ++ f1 = g2 ++ f2 -> g1 = g2 /\ f1 = f2.
+Proof.
+  revert g2; induction g1 as [|x g1 IH]; intros [|y g2] H1 H2 F1 F2 H; cbn in *.
+  - auto.
+  - destruct f1 as [|c f1]; [discriminate|]. injection H as -> H. subst. rewrite N.eqb_refl in H2. discriminate.
+  - destruct f2 as [|c f2]; [discriminate|]. injection H as -> H. subst. rewrite N.eqb_refl in H1. discriminate.
+  - injection H as -> H. apply andb_true_iff in H1 as [_ H1]. apply andb_true_iff in H2 as [_ H2].
+    destruct (IH g2 H1 H2 F1 F2 H) as [-> ->]. auto.
+Qed.
+
+Theorem unseeded_input_injective h1 h2 c1 c2 :
+  seedless c1 -> seedless c2 ->
+  length h1 = length h2 -> length (c_binary_id c1) = length (c_binary_id c2) ->
+  no_byte 32 (c_gogarble c1) = true -> no_byte 32 (c_gogarble c2) = true ->
+  garble_hash_input h1 c1 = garble_hash_input h2 c2 ->
+  h1 = h2 /\ c_binary_id c1 = c_binary_id c2 /\ c_gogarble c1 = c_gogarble c2 /\ flag_combo c1 = flag_combo c2.
+Proof.
+  intros S1 S2 Lh Lb G1 G2 H. unfold garble_hash_input in H.
+  destruct (app_len_inj _ _ _ _ Lh H) as [-> H1].
+  destruct (app_len_inj _ _ _ _ Lb H1) as [Hb H2].
+  destruct (app_len_inj s_gogarble s_gogarble _ _ eq_refl H2) as [_ H3].
+  rewrite (build_flags_seedless c1 S1), (build_flags_seedless c2 S2) in H3.
+  destruct (nospace_split _ _ _ _ G1 G2 (flags_head _) (flags_head _) H3) as [Hg Hf].
+  repeat split; auto. apply flags_of_combo_inj, Hf.
+Qed.
+
+(* with a space in GOGARBLE the encoding is ambiguous: two different configurations, one input *)
+Theorem hash_input_ambiguous_refuted :
+  exists h c1 c2, flag_combo c1 <> flag_combo c2 /\ garble_hash_input h c1 = garble_hash_input h c2.
+Proof.
+  exists [1],
+    {| c_literals := false; c_tiny := true; c_ctrlflow := false; c_seed := []; c_gogarble := [42; 44]; c_binary_id := [2]; c_testobf := [] |},
+    {| c_literals := false; c_tiny := false; c_ctrlflow := false; c_seed := []; c_gogarble := [42; 44] ++ s_tiny; c_binary_id := [2]; c_testobf := [] |}.
+  split; [cbn; discriminate | vm_compute; reflexivity].
+Qed.
